@@ -226,6 +226,12 @@ func H_c10_routing() {
 	p2p := symInt(0, 1) == 1
 	msg := mkMessage(mids[0], to, cc, p2p, "b\r\n")
 	msg.Header.Set("X-Unread", "true")
+	msg.Header.Set("X-Priority", "high") // the sender's own extension header: part of the message
+	wantRaw, _ := func() ([]byte, error) {
+		c := mkMessage(mids[0], to, cc, false, "b\r\n")
+		c.Header.Set("X-Priority", "high")
+		return c.Bytes()
+	}()
 	symAssume(h.AddOut(msg) == nil)
 	fwsets := [...][]string{{}, {"LA1A"}, {"LA1B", "LA1A"}, {"X@Y.NO"}, {"LA1C"}}
 	fwi := symInt(0, 4)
@@ -249,6 +255,8 @@ func H_c10_routing() {
 	symAssert((len(got) == 1) == want, "returned-iff-eligible (CMS: not P2P-only; P2P: sole recipient is an announced forwarder)")
 	for _, m := range got {
 		symAssert(m.Header.Get("X-P2POnly") == "" && m.Header.Get("X-FilePath") == "" && m.Header.Get("X-Unread") == "", "returned-messages-carry-no-mailbox-private-headers")
+		gotRaw, err := m.Bytes()
+		symAssert(err == nil && string(gotRaw) == string(wantRaw), "returned-message-is-otherwise-what-was-queued")
 	}
 	symReach("end")
 }
